@@ -16,7 +16,7 @@ import random
 
 import numpy as np
 
-from .. import tlc, gen
+from .. import tlc, gen, realdata
 from ..common import Evidence, Reporter, import_mir_eval, Machinery, frac
 from ..relations import RelLog, call
 from .C11 import check_rows, label, RULES
@@ -177,6 +177,16 @@ def run(tier, seed):
             log.add("close", "transcription.precision_recall_f1_overlap", base,
                     call(me.transcription.precision_recall_f1_overlap, ri, rp * f, ei, ep * f, **kw),
                     {"what": "both x 2^(j/12)", "factor": f, "ref_pitches": rp.tolist(), "est_pitches": ep.tolist(), "kw": str(kw)})
+    # the repository's chord fixtures (real MIREX vocabulary): reference and estimate transposed together, sharp / flat spelling
+    n_real = 0
+    for nm, (ri, rl, ei, el) in realdata.pairs(me, "chord", None if thorough else 3):
+        base = call(me.chord.evaluate, ri, rl, ei, el)
+        for k in rng.sample(range(1, 12), 2):
+            t = call(me.chord.evaluate, ri, [transpose_label(x, k, rng.choice([SHARP, FLAT])) for x in rl], ei,
+                     [transpose_label(x, k, rng.choice([SHARP, FLAT])) for x in el])
+            n_real += 1
+            log.add("same", "chord.evaluate", base, t, {"what": "joint transposition", "k": k, "fixture": "chord/" + nm})
+    ev.cov["repository_fixture_transpositions"] = n_real
     # fixed witnesses of the recorded findings' input class (a frequency exactly on base_frequency), whatever the seed
     w_t = np.arange(3) / 64.0
     w_rf, w_ef = np.array([220.0, 220.0, 440.0]), np.array([110.0, 220.0, 440.0])
